@@ -510,7 +510,7 @@ func checkC10(ctx *pbt.Ctx, c c10Case) error {
 		}
 		return nil
 	}
-	open := multiplicityOpen(bq.Query{From: c.From, Clauses: append(append([]bq.Clause{}, c.Mandatory...), c.Optional...)}, c.Data)
+	open := multiplicityOpen(bq.Query{From: c.From, Clauses: append(append(append([]bq.Clause{}, c.Mandatory...), c.Optional...), c.Trailing...)}, c.Data)
 	want := envKeys(cur, allCols)
 	got := envKeys(R, allCols)
 	if lenient {
